@@ -311,16 +311,16 @@ def derive(o, exceptions):
         roles[0] = (0, 'ptr')
         i = 1
     elif P[0]['pt'] == 'reg3' and rk == 3 and not P[0]['isconst']:
-        spec['r'] = dict(kind=3, carrier='reg', form='arrref' if P[0]['isref'] else 'arr', pname=P[0]['name'])
+        spec['r'] = dict(kind=3, carrier='reg', form='arrref' if P[0]['isref'] else 'arr', pname=P[0]['name'], obj=True)
         roles[0] = (0, 'reg3')
         i = 1
     elif rk == 3 and take_regs(0, 3, True):
-        spec['r'] = dict(kind=3, carrier='reg', form='sep', pname=P[0]['name'])
+        spec['r'] = dict(kind=3, carrier='reg', form='sep', pname=P[0]['name'], obj=True)
         for j in range(3):
             roles[j] = (0, 'reg%d' % j)
         i = 3
     elif rk == 1 and take_regs(0, 1, True):
-        spec['r'] = dict(kind=1, carrier='reg', form='one', pname=P[0]['name'])
+        spec['r'] = dict(kind=1, carrier='reg', form='one', pname=P[0]['name'], obj=True)
         roles[0] = (0, 'reg0')
         i = 1
     else:
@@ -357,20 +357,20 @@ def derive(o, exceptions):
         elif p['pt'] == 'reg3':
             if kind != 3:
                 return unc(o, 'operand %s: three registers but the name promises a base element' % s)
-            spec[s] = dict(kind=3, carrier='regc' if isc else 'reg', form='arrref' if p['isref'] else 'arr', pname=p['name'])
+            spec[s] = dict(kind=3, carrier='regc' if isc else 'reg', form='arrref' if p['isref'] else 'arr', pname=p['name'], obj=True)
             roles[i] = (slot, 'reg3')
             i += 1
         elif p['pt'] == 'reg':
             if kind == 1:
                 if isc:
                     return unc(o, 'operand %s: constant promised but a lane register is passed' % s)
-                spec[s] = dict(kind=1, carrier='reg', form='one', pname=p['name'])
+                spec[s] = dict(kind=1, carrier='reg', form='one', pname=p['name'], obj=p['isref'])
                 roles[i] = (slot, 'reg0')
                 i += 1
             else:
                 if not take_regs(i, 3, False):
                     return unc(o, 'operand %s: extension element promised but fewer than three registers follow' % s)
-                spec[s] = dict(kind=3, carrier='regc' if isc else 'reg', form='sep', pname=p['name'])
+                spec[s] = dict(kind=3, carrier='regc' if isc else 'reg', form='sep', pname=p['name'], obj=all(P[i + j]['isref'] for j in range(3)))
                 for j in range(3):
                     roles[i + j] = (slot, 'reg%d' % j)
                 i += 3
@@ -453,9 +453,42 @@ def derive(o, exceptions):
     if fam == 'copy' and spec['b'] is not None:
         return unc(o, 'copy with two operands')
     o['spec'] = spec
+    o['alias'] = alias_forms(spec)
     o['roles'] = roles
     o['status'] = 'covered'
     return o
+
+
+MEMARR = ('arr_unit', 'arr_stride', 'arr_idx')
+
+
+def can_share(x, y):
+    """may carriers x and y be ONE object with identical designated positions?  (rule, from the parameter list only)
+    registers: same kind, same shape (Element_avx[_512] array / single register / three registers) and the operand is passed as an
+               object (reference or array), not copied by value;
+    arrays:    same kind and both element arrays (unit, strided or indexed): same base pointer, and the harness fixes stride / index
+               array so that position k of one IS position k of the other (never partially overlapping)."""
+    if not x or not y or x['kind'] != y['kind']:
+        return False
+    if x['carrier'] == 'reg' and y['carrier'] == 'reg':
+        shape = {'arr': 'A', 'arrref': 'A', 'one': 'O', 'sep': 'S'}
+        return shape[x['form']] == shape[y['form']] and x.get('obj') and y.get('obj')
+    return x['carrier'] in MEMARR and y['carrier'] in MEMARR
+
+
+def alias_forms(spec):
+    """alias forms added for this overload: c:a (result object == operand a), c:b, a:b (both operands one object), c:a:b"""
+    f = []
+    ca, cb, ab = can_share(spec['r'], spec['a']), can_share(spec['r'], spec['b']), can_share(spec['a'], spec['b'])
+    if ca:
+        f.append('c:a')
+    if cb:
+        f.append('c:b')
+    if ab:
+        f.append('a:b')
+    if ca and cb and ab:
+        f.append('c:a:b')
+    return f
 
 
 def unc(o, why):
@@ -528,6 +561,7 @@ def main():
         if o['status'] == 'covered':
             sp = o['spec']
             d = ' '.join('%s=%s%s' % (s, sp[s]['kind'], sp[s]['carrier']) for s in ('r', 'a', 'b') if sp[s]) + (' aux=' + sp['aux'] if sp['aux'] != 'none' else '')
+            d += '  alias{%s}' % ','.join(o['alias']) if o['alias'] else ''
         else:
             d = 'UNCOVERED: ' + o['why']
         print('%-22s %s:%-5d %-40s %s%s' % (o['id'], o['file'].replace('goldilocks_', ''), o['line'], o['sig'], d, '  [exception]' if 'exception' in o else ''))
